@@ -41,6 +41,8 @@ type storeState struct {
 	checkpointID       uint64 // The last used, monotonically increasing checkpoint ID
 	// Closed when the most recent retained-checkpoints update has been received
 	lastRetainedDelivered chan struct{}
+	// Closed when the most recently completed checkpoint has been published
+	lastPublished chan struct{}
 }
 
 type NewStoreParams struct {
@@ -191,8 +193,19 @@ func (s *Store) finishSnapshot(snap *jobSnapshot) {
 	}
 	snap.splitterState = s.sourceSplitters[0].Checkpoint()
 
+	// Publications happen in the order in which the checkpoints completed (this
+	// runs under stateMu): a later checkpoint that overtook this one would let
+	// the operators drop the files a savepoint still has to copy.
+	prevPublished := s.state.lastPublished
+	published := make(chan struct{})
+	s.state.lastPublished = published
+
 	go func() {
+		defer close(published)
 		verifhook.Point("snapshots.publish.begin", s, snap.id)
+		if prevPublished != nil {
+			<-prevPublished
+		}
 		uri, err := s.finishSnapshotAsync(snap)
 		if err != nil {
 			s.errChan <- err
